@@ -26,6 +26,12 @@ Definition argmax (l : list T) : nat :=
 
 Definition vz (v : vec3) : T := let '(_, _, z) := v in z.
 
+(* Vector3d.unit: data / norm, a zero vector stays zero (nan_to_num) *)
+Definition vunit (v : vec3) : vec3 :=
+  let '(x, y, z) := v in
+  let n := o_sqrt O (vdot O v v) in
+  if o_eqb O n (o_ofZ O 0) then v else (o_div O x n, o_div O y n, o_div O z n).
+
 (* kind: 0 = plain; 1 = groups 321, 312, 32 (flip z<0 with the LAST element, then use the
    first three); 2 = group -3 (flip with element 3, then the first three); 3 = group -4
    (flip with the LAST element, then use the PROPER elements: repair 5e95612 -- before it
@@ -54,9 +60,12 @@ Definition project (kind : nat) (tol : T) (S : list rot) (N : list vec3) (center
                 | None => v
                 end in
       let S1 := sub_of kind S in
-      let closeness := map (fun s => rnd (vdot O v1 (ract O s c))) S1 in
+      (* repair of the short-vector defect: the closeness to the rotated centres and the "already inside" test
+         are taken on the unit vector; the operation found is applied to the vector itself *)
+      let u1 := vunit v1 in
+      let closeness := map (fun s => rnd (vdot O u1 (ract O s c))) S1 in
       let s := nth (argmax closeness) S1 d in
       let v2 := ract O (rinv O s) v1 in
-      if in_sector tol N v1 then v1 else v2
+      if in_sector tol N u1 then v1 else v2
   end.
 End Sector.
